@@ -63,8 +63,14 @@ fn lockstep_child(args: &[String]) {
                     count.store(0, Ordering::Relaxed);
                     gen.fetch_add(1, Ordering::Release);
                 } else {
+                    let mut spins = 0u32;
                     while gen.load(Ordering::Acquire) == g {
                         std::hint::spin_loop();
+                        spins += 1;
+                        if spins > 2000 {
+                            // a descheduled thread must not stall the others for a time slice each
+                            std::thread::yield_now();
+                        }
                     }
                 }
                 for k in 0..8u32 {
